@@ -269,7 +269,31 @@ pub fn exec(c: &Case) -> Outcome {
             return fail_and_cleanup(Outcome::fail("open-channel-during-stall-failed", format!("{}\n{}", e, ctx)));
         }
     }
-    let conn = conn_opt.take().unwrap();
+    // a channel opened after the throttle episode is over must work like any other
+    let mut conn = conn_opt.take().unwrap();
+    let late = timed(CALL_TIMEOUT, "avh-c18-late", move || {
+        let r = match conn.open_channel(None) {
+            Ok(ch) => {
+                let id = ch.channel_id();
+                let r = ch.basic_publish("", Publish::new(b"after the stall", "late")).and_then(|_| ch.qos(0, 0, false));
+                std::mem::forget(ch);
+                r.map(|_| id).map_err(|e| format!("{:?}", e))
+            }
+            Err(e) => Err(format!("open_channel: {:?}", e)),
+        };
+        (conn, r)
+    });
+    let (conn, late_id) = match late {
+        Some((c, Ok(id))) => (c, id),
+        Some((_c, Err(e))) => {
+            let _ = sess.broker.stop();
+            return fail_and_cleanup(Outcome::fail("channel-after-stall-failed", format!("{}\n{}", e, ctx)));
+        }
+        None => {
+            let _ = sess.broker.stop();
+            return fail_and_cleanup(Outcome::hang("channel-opened-after-stall-never-works", format!("open_channel / publish / qos on a channel opened after the throttle episode did not return\n{}", ctx)));
+        }
+    };
     let close = timed(CALL_TIMEOUT, "avh-c18-close", move || conn.close());
     drop(back);
     let io = wire.io_thread();
@@ -328,6 +352,10 @@ pub fn exec(c: &Case) -> Outcome {
         if k != quotas[i] {
             return Outcome::fail("message-lost-duplicated-or-reordered", format!("publisher {}: {} messages on the wire, {} accepted\n{}", i, k, quotas[i], ctx));
         }
+    }
+    let late_ok = chans_w.get(&late_id).map_or(false, |fs| fs.iter().any(|(_, f)| matches!(f, AMQPFrame::Body(_, b) if b == b"after the stall")));
+    if !late_ok {
+        return Outcome::fail("message-lost-duplicated-or-reordered", format!("the message published on the channel opened after the stall is not on the wire\n{}", ctx));
     }
     let mut o = Outcome::pass(above_high && s1.any_blocked);
     if above_high {
